@@ -53,6 +53,15 @@ Fixpoint starts_with (s p : str) : bool :=
   | y :: p', x :: s' => (x =? y) && starts_with s' p'
   end.
 
+(* starts_with(col, 'lit') reaches the scan as a LIKE pattern in which `_` is not escaped: an underscore of
+   the literal matches any character *)
+Fixpoint starts_with_like (s p : str) : bool :=
+  match p, s with
+  | [], _ => true
+  | _ :: _, [] => false
+  | y :: p', x :: s' => ((y =? 95) || (x =? y)) && starts_with_like s' p'
+  end.
+
 Fixpoint contains_sub (s sub : str) : bool :=
   starts_with s sub || match s with [] => false | _ :: r => contains_sub r sub end.
 
@@ -305,7 +314,7 @@ Definition s_children (tab : bool) (id : path) (rs : list (row str)) : outcome (
       | SLit l =>
           let k := byte_len prefix + 2 in       (* prefix.len() + 2: bytes, used as a character position *)
           Ok (map (fun r => snd (parse_object_id (r_key r)))
-                  (filter (fun r => Bool.eqb (r_tab r) tab && starts_with (r_key r) l
+                  (filter (fun r => Bool.eqb (r_tab r) tab && starts_with_like (r_key r) l
                                     && negb (has_char DOLLAR (sql_substring (r_key r) k))) rs))
       | SPanic => Panic
       | _ => Err                                 (* inside the call parentheses a cut is a parse error *)
@@ -314,7 +323,7 @@ Definition s_children (tab : bool) (id : path) (rs : list (row str)) : outcome (
 
 Definition s_has_desc (oid : str) (rs : list (row str)) : outcome bool :=
   match lex_splice (oid ++ [DOLLAR]) with
-  | SLit l => Ok (existsb (fun r => starts_with (r_key r) l) rs)
+  | SLit l => Ok (existsb (fun r => starts_with_like (r_key r) l) rs)
   | SPanic => Panic
   | _ => Err
   end.
@@ -952,8 +961,8 @@ Definition typed_run (mode : N) (ops : list op) : list answer := fst (run typed_
 Definition safe_char (c : N) : bool :=
   is_ascii_alpha c || is_digit c
   || (c =? 33) || (c =? 38) || (c =? 40) || (c =? 41) || (c =? 43) || (c =? 44) || (c =? 45) || (c =? DOT)
-  || (c =? 59) || (c =? 61) || (c =? 64) || (c =? USCORE).
-  (* ! & ( ) + , - . ; = @ _ *)
+  || (c =? 59) || (c =? 61) || (c =? 64).
+  (* ! & ( ) + , - . ; = @      (not `_`: it is a LIKE wildcard in the prefix filters) *)
 Definition storable (n : str) : bool := forallb safe_char n.
 Definition storable_path (p : path) : bool := forallb storable p.
 Definition storable_op (o : op) : bool := storable_path (op_id o).
@@ -963,6 +972,10 @@ Definition Known_C36_delimiter_or_quote_in_name (ops : list op) : bool :=
   existsb (fun o => existsb (existsb dq_char) (op_id o)) ops.
 Definition Known_C36_path_unsafe_name (ops : list op) : bool :=
   existsb (fun o => existsb (existsb (fun c => negb (safe_char c) && negb (dq_char c))) (op_id o)) ops.
+
+(* sub-class of path_unsafe_name: `_` in a name (LIKE wildcard of the prefix filters) *)
+Definition Known_C36_like_wildcard_in_name (ops : list op) : bool :=
+  existsb (fun o => existsb (has_char USCORE) (op_id o)) ops.
 
 (* an operation that addresses, as one kind of object, a key that holds the other kind *)
 Definition holds (tab : bool) (k : path) (rs : list (row path)) : bool :=
@@ -1047,11 +1060,11 @@ Definition filter_rows (t : N) (s : str) : outcome (list (str * bool)) :=
          | SCut l => Ok (sel (fun r => str_eqb (r_key r) l))
          | SErr => Err | SPanic => Panic end
   | 3 => match lex_splice (s ++ [DOLLAR]) with
-         | SLit l => Ok (sel (fun r => r_tab r && starts_with (r_key r) l
+         | SLit l => Ok (sel (fun r => r_tab r && starts_with_like (r_key r) l
                                        && negb (has_char DOLLAR (sql_substring (r_key r) (byte_len s + 2)))))
          | _ => Err end
   | _ => match lex_splice (s ++ [DOLLAR]) with
-         | SLit l => Ok (sel (fun r => starts_with (r_key r) l))
+         | SLit l => Ok (sel (fun r => starts_with_like (r_key r) l))
          | _ => Err end
   end.
 
